@@ -140,8 +140,23 @@ def check_case(case: Dict[str, Any], pool: Optional[Pool] = None, seeds: Optiona
             pool.close()
 
 
+# second profile, built to make equal-time queue ties decide something: many low vehicles of one small-battery type stacked on
+# two sites, one or two one-plug stations, no requests in the way - they are sent to charge together, arrive together, queue with
+# equal enqueue times, and plugs are released one at a time over a long run
+PROFILE_QUEUE = profile(nv=(5, 9), n_requests=(0, 6), builtin=[True], n_scripted=[1], fleets=[0, 0, 2], socs=[0.05, 0.08, 0.08, 0.1, 0.12],
+                        mechs=["tiny_bev", "tiny_bev", "tiny_bev", "leaf_50", "tiny_ice"], max_plugs=1, max_ptypes=2, stations=(1, 2), bases=(1, 2),
+                        timeouts=[600], steps=[60, 60, 120, 300], humans=False, soc_limits=[0.8, 1.0], plug_types=["DCFC", "DCFC", "LEVEL_2", "GAS_PUMP"])
+
+
 @st.composite
 def st_case(draw) -> Dict[str, Any]:
+    if draw(st.sampled_from([False, False, True])):
+        w = draw(st_world(PROFILE_QUEUE))
+        # stack the vehicles on at most two sites
+        a, b = w["vehicles"][0]["site"], w["vehicles"][-1]["site"]
+        for k, v in enumerate(w["vehicles"]):
+            v["site"] = a if k % 3 else b
+        return {"world": w, "steps": draw(st.integers(120, 200)), "det": False}
     w = draw(st_world(PROFILE))
     return {"world": w, "steps": draw(st.integers(60, 150)), "det": draw(st.booleans())}
 
